@@ -36,7 +36,8 @@ const (
 	KindEntry = 1
 	KindLoop  = 2
 	KindStmt  = 4
-	KindOp    = 8 // operation boundary / writer yield issued by the harness
+	KindOp    = 8  // operation boundary / writer yield issued by the harness
+	KindSync  = 16 // just before / after a statement that calls into sync or sync/atomic
 )
 
 // Event kinds.
@@ -133,6 +134,7 @@ type state struct {
 	yields    [MaxTasks + 1]uint64
 	ops       [MaxTasks + 1]uint64
 	noPreempt [MaxTasks + 1]int32
+	lockLeaks int32              // operations that returned inside a Lock()/Unlock() bracket
 	aborting  [MaxTasks + 1]bool // an abort fired in the task's current operation and has not been acknowledged
 	// per-operation yield budget (slot MaxTasks = the single caller outside a
 	// simulation): an operation that passes more yield points than this is cut
@@ -489,6 +491,19 @@ func OpDone() {
 	}
 	me := s.cur
 	s.ops[me]++
+	if s.noPreempt[me] != 0 {
+		// the operation returned while the bracket of a statement-level
+		// Lock()/Unlock() pair was still open: a lock taken and not released (a
+		// leak on an early return), or a panic between the two. The task must not
+		// stay unpreemptible for the rest of the run; the leak is counted, and the
+		// harness's watchdog uses it to tell "the library blocks forever on a lock
+		// it leaked" (a verdict) from a stuck simulator (machinery trouble).
+		if s.noPreempt[me] > 0 {
+			s.lockLeaks++
+			lockLeaksEver++
+		}
+		s.noPreempt[me] = 0
+	}
 	if s.burstOn {
 		// wake the victim once every other live task has done one more op
 		all := true
@@ -704,6 +719,15 @@ func Cur() int32 { return s.cur }
 
 //go:norace
 func Progress() uint64 { return s.progress }
+
+// LockLeaks: operations executed by this process so far that returned with a
+// statement-level Lock() not matched by its Unlock() (the lock may live in
+// package-level state and block a later run).
+//
+//go:norace
+func LockLeaks() int32 { return lockLeaksEver }
+
+var lockLeaksEver int32
 
 //go:norace
 func Steps() uint64 { return s.step }
